@@ -2,14 +2,14 @@
    AssertionError of the guard), for every label sequence.  Joint invariant: a task suspended in the transport is the
    lock holder (and conversely), the lock invariant of Proofs/C12_fairlock.v, and W of Proofs/C12_wire.v. *)
 From Coq Require Import List Arith Bool ZArith Lia.
-From EN Require Import Lib.Bytes Conc.FairLock Conc.Guard Conc.SendSerial Proofs.C12_fairlock Proofs.C12_wire.
+From EN Require Import Lib.Bytes Conc.FairLock Conc.AsyncioLock Conc.Guard Conc.SendSerial Proofs.C12_fairlock Proofs.C12_wire.
 Import ListNotations.
 
 Definition is_wait (x : tstate) : Prop := exists c r, x = TWait c r.
 Definition tids (l : fl) : list tid := map w_tid (fl_waiters l).
 
 Record LI (s : st) : Prop := mkLI {
-  l_use : s_uselock s = true;
+  l_use : s_lk s = LFair;
   l_inv : fl_inv (s_lock s);
   l_send : forall u todo rest, tk s u = Some (TSend todo rest) -> In u (fl_holders (s_lock s));
   l_hold : forall u, In u (fl_holders (s_lock s)) -> exists todo rest, tk s u = Some (TSend todo rest);
@@ -20,7 +20,7 @@ Record LI (s : st) : Prop := mkLI {
 
 (* t holds the lock and is running (inside a step) *)
 Record LH (t : tid) (s : st) : Prop := mkLH {
-  h_use : s_uselock s = true;
+  h_use : s_lk s = LFair;
   h_inv : fl_inv (s_lock s);
   h_hold : fl_holders (s_lock s) = [t];
   h_run : tk s t = Some TRun;
@@ -30,13 +30,13 @@ Record LH (t : tid) (s : st) : Prop := mkLH {
   h_nobusy : forall u, tk s u <> Some (TDone c_busy)
 }.
 
-Lemma LI_ext : forall s s', s_uselock s' = s_uselock s -> s_lock s' = s_lock s -> s_tasks s' = s_tasks s ->
+Lemma LI_ext : forall s s', s_lk s' = s_lk s -> s_lock s' = s_lock s -> s_tasks s' = s_tasks s ->
   s_crashed s' = s_crashed s -> LI s -> LI s'.
 Proof.
   intros s s' E1 E2 E3 E4 [H1 H2 H3 H4 H5 H6 H7]. constructor; unfold tk in *; rewrite ?E1, ?E2, ?E3, ?E4; auto.
 Qed.
 
-Lemma LI_init : forall progs, LI (st_init true progs).
+Lemma LI_init : forall progs, LI (st_init LFair progs).
 Proof.
   intros. constructor; simpl; auto; unfold tk, tids; simpl.
   - apply fl_inv_init.
@@ -123,7 +123,7 @@ Proof.
 Qed.
 
 (* releasing the lock held by t, tasks untouched *)
-Lemma LI_after_release : forall s t, s_uselock s = true -> fl_inv (s_lock s) -> In t (fl_holders (s_lock s)) ->
+Lemma LI_after_release : forall s t, s_lk s = LFair -> fl_inv (s_lock s) -> In t (fl_holders (s_lock s)) ->
   (forall u todo rest, tk s u <> Some (TSend todo rest)) ->
   (forall u, In u (tids (s_lock s)) -> exists c r, tk s u = Some (TWait c r)) ->
   s_crashed s = false -> (forall u, tk s u <> Some (TDone c_busy)) ->
@@ -181,8 +181,7 @@ Lemma L_run_task : forall prog t s, LI s -> W s -> tk s t = Some TRun -> LI (run
 Proof.
   induction prog as [|p rest IH]; intros t s L HW Ht; simpl.
   - eapply LI_set_plain; eauto using not_send_run, not_wait_run, not_send_done, c_ok_not_busy.
-  - rewrite (l_use s L).
-    assert (Idle := idle_of_LI s t L Ht).
+  - assert (Idle := idle_of_LI s t L Ht). unfold acquire. rewrite (l_use s L).
     destruct (fl_acquire t (s_lock s)) as [l got] eqn:A.
     assert (I' : fl_inv l) by (eapply fl_acquire_inv; eauto using l_inv).
     unfold fl_acquire in A.
@@ -218,7 +217,7 @@ Proof.
   assert (Hin : In t (fl_holders (s_lock s))) by (eapply l_send; eauto).
   destruct (holder_locked _ _ (l_inv s L) Hin) as [_ Hh].
   destruct (release_facts _ _ (l_inv s L) Hin) as [l' [R [I' [Hh' Ht']]]].
-  rewrite gexit_true by exact G. unfold unlock. simpl. rewrite (l_use s L), R.
+  rewrite gexit_true by exact G. unfold unlock. simpl. rewrite (l_use s L). simpl. rewrite R.
   destruct L as [H1 H2 H3 H4 H5 H6 H7]. constructor; simpl; auto; unfold tk in *; simpl.
   - intros u a b E. exfalso. apply upd_cases in E. destruct E as [[_ E]|[N E]].
     + apply Ny. subst. unfold is_send; eauto.
@@ -234,7 +233,7 @@ Proof. induction l as [|a l IH]; intros t x y; destruct t; simpl; auto. rewrite 
 
 Lemma L_step : forall s l s', LI s -> W s -> s_next s l = Some s' -> LI s'.
 Proof.
-  intros s l s' L HW H. destruct l as [t|t|t|t|t]; simpl in H; unfold get_task in H;
+  intros s l s' L HW H. destruct l as [t|t|t|t|t|t]; simpl in H; unfold get_task in H;
     destruct (nth_error (s_tasks s) t) as [x|] eqn:E; try discriminate.
   - (* SStart *)
     destruct x; try discriminate. inversion H; subst. apply L_run_task.
@@ -242,7 +241,8 @@ Proof.
     + apply W_set_plain; auto using not_send_run. intros y Hy. unfold tk in Hy. rewrite E in Hy. inversion Hy. apply not_send_new.
     + unfold tk. simpl. eapply upd_eq; eauto.
   - (* SResume *)
-    destruct x as [| |p rest| |]; try discriminate. destruct (fl_resume t (s_lock s)) as [l|] eqn:R; [|discriminate].
+    destruct x as [| |p rest| |]; try discriminate. unfold lk_resume in H. simpl in H. rewrite (l_use s L) in H.
+    destruct (fl_resume t (s_lock s)) as [l|] eqn:R; [|discriminate]. simpl in H.
     inversion H; subst. destruct (resume_facts _ _ _ (l_inv s L) R) as [Hh [Hh' [I' T]]].
     apply L_send_body.
     + constructor; simpl; auto; try (apply (l_use s L)); try (apply (l_crash s L)).
@@ -263,7 +263,7 @@ Proof.
       assert (X := L_end_send s t [] rest SgComplete TRun L HW E not_send_run ltac:(discriminate)).
       (* same state: the task entry was set to TRun before instead of after *)
       eapply LI_ext; [| | | |exact X]; unfold unlock, gexit, guard_exit, close_seg, set_task, with_tasks; simpl;
-        destruct (s_guard s); simpl; rewrite ?(l_use s L); destruct (fl_release t (s_lock s)); simpl; auto;
+        destruct (s_guard s); simpl; rewrite ?(l_use s L); simpl; destruct (fl_release t (s_lock s)); simpl; auto;
         try (symmetry; apply (l_use s L)).
     + destruct L as [H1 H2 H3 H4 H5 H6 H7]. constructor; simpl; auto; unfold tk in *; simpl.
       * intros u a b C. apply upd_cases in C. destruct C as [[Eu _]|[_ C]]; [subst; eauto|eauto].
@@ -278,7 +278,8 @@ Proof.
   - (* SCancel *)
     destruct x as [prog| |p rest|todo rest|]; try discriminate.
     + inversion H; subst. eapply LI_set_plain; eauto using not_send_new, not_wait_new, not_send_done, c_cancelled_not_busy.
-    + destruct (fl_cancel t (s_lock s)) as [l|] eqn:C; [|discriminate]. inversion H; subst.
+    + unfold lk_cancel in H. rewrite (l_use s L) in H.
+      destruct (fl_cancel t (s_lock s)) as [l|] eqn:C; [|discriminate]. simpl in H. inversion H; subst.
       destruct (cancel_facts _ _ _ C) as [Hh T].
       assert (I' : fl_inv l) by (eapply fl_cancel_inv; eauto using l_inv).
       destruct L as [H1 H2 H3 H4 H5 H6 H7]. constructor; simpl; auto; unfold tk in *; simpl.
@@ -287,6 +288,8 @@ Proof.
       * intros u Hu. destruct (T u Hu) as [Hu1 Hu2]. destruct (H5 u Hu1) as [a [b X]]. exists a, b. rewrite upd_neq; auto.
       * intros u X. apply upd_cases in X. destruct X as [[_ X]|[_ X]]; [discriminate|]. eapply H7; eauto.
     + inversion H; subst. unfold abort_send. eapply L_end_send; eauto using not_send_done, c_cancelled_not_busy.
+  - (* SFutCancel: nothing happens with the FairLock *)
+    destruct x; try discriminate. unfold lk_futcancel in H. rewrite (l_use s L) in H. inversion H; subst. exact L.
 Qed.
 
 Lemma LW_run : forall ls s s', LI s -> W s -> s_run s ls = Some s' -> LI s' /\ W s'.
@@ -299,11 +302,11 @@ Proof.
 Qed.
 
 Lemma guard_never_busy_under_lock_proof :
-  forall progs ls s, s_run (st_init true progs) ls = Some s ->
+  forall progs ls s, s_run (st_init LFair progs) ls = Some s ->
     (forall t, nth_error (s_tasks s) t <> Some (TDone c_busy)) /\ s_crashed s = false /\
     (forall t todo rest, nth_error (s_tasks s) t = Some (TSend todo rest) -> fl_holders (s_lock s) = [t] /\ s_guard s = true).
 Proof.
-  intros progs ls s R. destruct (LW_run ls _ s (LI_init progs) (W_init true progs) R) as [L HW].
+  intros progs ls s R. destruct (LW_run ls _ s (LI_init progs) (W_init LFair progs) R) as [L HW].
   split; [apply (l_nobusy s L)|]. split; [apply (l_crash s L)|].
   intros t todo rest E. split.
   - assert (Hin : In t (fl_holders (s_lock s))) by (eapply l_send; eauto).
